@@ -147,3 +147,7 @@ def run(ctx: Ctx, rep: Report, tier: str):
     ok = ok and len(chg) == 1 and isinstance(chg[0].value, ast.BoolOp) and isinstance(chg[0].value.op, ast.Or) and \
         {"hash", "path"} <= {x.attr for x in ast.walk(chg[0].value) if isinstance(x, ast.Attribute)}
     rep.check("C14.W6", "_process_event|walk-dedupe", pe, ok, "dropped only when known and hash and path are equal", "walk events are dropped under a weaker condition (a changed object is missed) or never")
+    from rules.common import refresh_marks_changed
+    rep.rule("C14.W7", "a refresh that discovers a new hash or a new path stamps the side changed (unless ignored / already changed): what was learnt from the "
+             "provider is acted upon even if the corresponding event never arrives", expect_min=2)
+    refresh_marks_changed(ctx, rep, "C14.W7")
